@@ -966,24 +966,20 @@ class DateTime(datetime.datetime, Date):
         Reset the date to the first day of the week
         and the time to 00:00:00.
         """
-        dt = self
+        days = (self.day_of_week - pendulum._WEEK_STARTS_AT) % 7
+        day = self.date().subtract(days=days)
 
-        if self.day_of_week != pendulum._WEEK_STARTS_AT:
-            dt = self.previous(pendulum._WEEK_STARTS_AT)
-
-        return dt.start_of("day")
+        return self._boundary(day.year, day.month, day.day)
 
     def _end_of_week(self) -> Self:
         """
         Reset the date to the last day of the week
         and the time to 23:59:59.
         """
-        dt = self
+        days = (pendulum._WEEK_ENDS_AT - self.day_of_week) % 7
+        day = self.date().add(days=days)
 
-        if self.day_of_week != pendulum._WEEK_ENDS_AT:
-            dt = self.next(pendulum._WEEK_ENDS_AT)
-
-        return dt.end_of("day")
+        return self._boundary(day.year, day.month, day.day, last=True)
 
     def next(self, day_of_week: WeekDay | None = None, keep_time: bool = False) -> Self:
         """
